@@ -113,7 +113,7 @@ def corpus_model_lines():
 
 def run(R):
     R.assumptions += [
-        "generic constructors (`fn g<T>() -> G<T>` bound to an instantiation) are outside the Lean lookup (which compares types by identity): for the family `generic` the nearest-registration rule is checked by a model-free oracle on the traces of the generated servers only",
+        "generic constructors (`fn g<T>() -> G<T>`): the Lean model takes the set of instantiations a template can be bound to as given (is_a_template_for is C17's subject); `getT` mirrors get_or_try_bind's walk (concrete entry, then templates, scope by scope) and is compared with the traces of the family `generic`",
         "scoping rule used by the oracle (runtime/pavex/src/blueprint/nesting.rs, 'Precedence'): a handler or middleware sees the constructors of the blueprint "
         "it is registered in (latest registration per type) and of the enclosing blueprints; the inputs of a constructor are resolved for the component on whose behalf it runs",
         "constructors stamp what they build (tools/gen_app.py instrumentation): the trace is trusted to tell which constructor produced an instance",
@@ -283,7 +283,36 @@ def run(R):
                               "why": "`%s` asked for %s and received values built by %s (constructors that ran: %s); the nearest enclosing registrations are %s" % (
                                   h["fn"], ["G<%s>" % x for x in h["wants"]], got, built, want),
                               "status": resp.get("status"), "trace": resp.get("trace"), "generic": sp["generic"], "app_module_source": obs[name]["src"]})
-    hist_generic = {"servers": n_generic, "injected_values": n_generic_vals, "generic_or_concrete_shadows_the_other": n_generic_shadow}
+    # correspondence for the same family: the Lean `getT` (Pxv.Scope.getT_nearest) on the scope tree of the application vs the
+    # constructors that really fed the handlers
+    glines, gkeys = [], []
+    for name, d in rt.items():
+        sp = obs[name]["spec"] if name in obs else None
+        if not sp or sp.get("klass") != "generic" or not d["result"] or "responses" not in d["result"]:
+            continue
+        scopes, params = sp["generic"]["scopes"], sp["generic"]["params"]
+        fns = sorted({r["fn"] for sc in scopes for r in sc["regs"]})
+        fid = {f: i for i, f in enumerate(fns)}
+        regs = [[k, fid[r["fn"]], params.index(r["produces"])] for k, sc in enumerate(scopes) for r in sc["regs"] if r["produces"] != "*"]
+        tmpls = [[k, fid[r["fn"]], list(range(len(params)))] for k, sc in enumerate(scopes) for r in sc["regs"] if r["produces"] == "*"]
+        edges = [[sc["parent"], k] for k, sc in enumerate(scopes) if sc["parent"] is not None]
+        for req, resp in zip(d["requests"], d["result"]["responses"]):
+            h = scopes[req["scope"]]["handler"]
+            lines_h = [l for l in resp.get("trace", []) if l.startswith("handler %s.%s :" % (name, h["fn"]))]
+            if len(lines_h) != 1:
+                continue
+            got = [x.split("/")[0] for x in lines_h[0].split(":", 1)[1].split()]
+            glines.append(json.dumps({"op": "generic", "edges": edges, "app": len(scopes), "regs": regs, "tmpls": tmpls,
+                                      "queries": [[req["scope"], params.index(pp)] for pp in h["wants"]]}))
+            gkeys.append((name, req, got, fns))
+    gouts = [json.loads(x) for x in pxvlib.run_model("scope", glines)] if glines else []
+    for (name, req, got, fns), mo in zip(gkeys, gouts):
+        want = [fns[a] if a is not None else None for a in mo.get("ans", [])]
+        if mo.get("r") != "ok" or want != got:
+            dis.append({"program": name, "what": "generic constructors: the model's get_or_try_bind designates %s, the handler received values built by %s" % (want, got),
+                        "request": req.get("path")})
+    hist_generic = {"servers": n_generic, "injected_values": n_generic_vals, "generic_or_concrete_shadows_the_other": n_generic_shadow,
+                    "model_queries": len(glines)}
 
     # ---- L3b: clone nodes in the dumped call graphs ------------------------------------------------------
     graphs = clone_graphs(obs)
